@@ -31,6 +31,8 @@ import (
 	"github.com/idena-network/idena-go/crypto"
 	"github.com/idena-network/idena-go/crypto/ecies"
 	"github.com/idena-network/idena-go/database"
+	"github.com/idena-network/idena-go/events"
+	"github.com/idena-network/idena-go/secstore"
 	dbm "github.com/tendermint/tm-db"
 	"pgregory.net/rapid"
 
@@ -64,6 +66,7 @@ type layout struct {
 	ShardsNum uint32
 	Idents    []ident // in the order the node reads them
 	Seed      []byte
+	Shared    int // flips whose cid was replaced by the cid of another identity's flip (drawSharedCids)
 }
 
 // shardModel is what the harness expects the node to derive from the layout
@@ -77,12 +80,20 @@ type shardModel struct {
 	cidIndex   map[string]int
 	pubIndex   map[string]int
 	authors    int
+	// A cid may have been submitted by several identities (consensus refuses only a cid the sender itself already
+	// has). The lottery identifies a flip by its cid: canon[f] is the index all copies of flip f resolve to (the last
+	// copy in reading order, as in cidIndex), holders[cid] the candidates who submitted it.
+	canon     []int
+	holders   map[string][]int
+	addrIndex map[common.Address]int
+	sharedCid int // cids of the shard held by more than one candidate
 }
 
 func buildModels(l *layout) map[common.ShardId]*shardModel {
 	res := map[common.ShardId]*shardModel{}
 	for s := uint32(1); s <= l.ShardsNum; s++ {
-		res[common.ShardId(s)] = &shardModel{id: common.ShardId(s), cidIndex: map[string]int{}, pubIndex: map[string]int{}}
+		res[common.ShardId(s)] = &shardModel{id: common.ShardId(s), cidIndex: map[string]int{}, pubIndex: map[string]int{},
+			holders: map[string][]int{}, addrIndex: map[common.Address]int{}}
 	}
 	for i := range l.Idents {
 		id := &l.Idents[i]
@@ -93,9 +104,11 @@ func buildModels(l *layout) map[common.ShardId]*shardModel {
 		ci := len(m.cands)
 		m.cands = append(m.cands, id)
 		m.pubIndex[string(id.PubKey)] = ci
+		m.addrIndex[id.Addr] = ci
 		var own []int
 		for _, cid := range id.Flips {
 			m.cidIndex[string(cid)] = len(m.flips)
+			m.holders[string(cid)] = append(m.holders[string(cid)], ci)
 			own = append(own, len(m.flips))
 			m.flips = append(m.flips, cid)
 			m.flipAuthor = append(m.flipAuthor, ci)
@@ -105,19 +118,53 @@ func buildModels(l *layout) map[common.ShardId]*shardModel {
 			m.authors++
 		}
 	}
+	for _, m := range res {
+		m.canon = make([]int, len(m.flips))
+		for f, cid := range m.flips {
+			m.canon[f] = m.cidIndex[string(cid)]
+			if m.canon[f] == f && len(m.holders[string(cid)]) > 1 {
+				m.sharedCid++
+			}
+		}
+	}
 	return res
+}
+
+// sharedFlips lists the flip indices of the shard whose cid somebody else in the shard submitted as well.
+func (m *shardModel) sharedFlips() []int {
+	var r []int
+	for f, cid := range m.flips {
+		if len(m.holders[string(cid)]) > 1 {
+			r = append(r, f)
+		}
+	}
+	return r
 }
 
 func (l *layout) describe() string {
 	var sb strings.Builder
 	fmt.Fprintf(&sb, "shards=%d seed=%s idents=[", l.ShardsNum, hex.EncodeToString(l.Seed))
+	occ := map[string]int{}
+	if l.Shared > 0 {
+		for i := range l.Idents {
+			for _, cid := range l.Idents[i].Flips {
+				occ[string(cid)]++
+			}
+		}
+	}
 	for i := range l.Idents {
 		id := &l.Idents[i]
 		if !id.IsCand {
-			fmt.Fprintf(&sb, "x%d:%d:%d ", id.Shard, id.State, len(id.Flips))
+			fmt.Fprintf(&sb, "x%d:%d:%d", id.Shard, id.State, len(id.Flips))
 		} else {
-			fmt.Fprintf(&sb, "%d:%d ", id.Shard, len(id.Flips))
+			fmt.Fprintf(&sb, "%d:%d", id.Shard, len(id.Flips))
 		}
+		for j, cid := range id.Flips {
+			if occ[string(cid)] > 1 {
+				fmt.Fprintf(&sb, "~%d", j) // flip j is also somebody else's
+			}
+		}
+		sb.WriteString(" ")
 	}
 	sb.WriteString("]")
 	return sb.String()
@@ -131,6 +178,9 @@ func (l *layout) summary() string {
 	for s := uint32(1); s <= l.ShardsNum; s++ {
 		m := ms[common.ShardId(s)]
 		fmt.Fprintf(&sb, " | shard %d: candidates=%d flipsPerCandidate=%v", s, len(m.cands), flipCounts(m))
+		if sh := m.sharedFlips(); len(sh) > 0 {
+			fmt.Fprintf(&sb, " flipsWithACidSubmittedTwice=%v(canonical %v)", sh, canonList(m, sh))
+		}
 	}
 	nc := 0
 	for i := range l.Idents {
@@ -286,12 +336,18 @@ type shardFacts struct {
 	placeholderForeign int // long list is the placeholder and flip 0 is by an author who does not encrypt for the candidate
 	placeholderOwn     int // long list is [0], nothing was left for the long session, flip 0 is by one of the candidate's authors
 	zeroFlipKnown      bool
+	sharedCids         int            // cids held by more than one candidate of the shard
+	sharedBoth         int            // candidates who have two holders of one cid among their authors (the lottery meets the flip twice)
+	sharedOtherAuthor  int            // assigned shared flips which the node's flip -> author table attributes to a holder who does not encrypt for the candidate
 	recipients         []map[int]bool // per author (candidate index): set of recipients; nil for non-authors
 	recipientList      [][]int
 	short, long        [][]int
 }
 
 func (f *shardFacts) nonTrivial() bool {
+	if f.sharedBoth > 0 {
+		return true
+	}
 	if f.authors < 1 || f.authors >= f.n {
 		return false
 	}
@@ -313,6 +369,15 @@ func toSet(a []int) map[int]bool {
 	r := make(map[int]bool, len(a))
 	for _, x := range a {
 		r[x] = true
+	}
+	return r
+}
+
+// canonList maps flip indices to the index all copies of the same cid resolve to (identity when cids are distinct).
+func canonList(m *shardModel, a []int) []int {
+	r := make([]int, len(a))
+	for i, x := range a {
+		r[i] = m.canon[x]
 	}
 	return r
 }
@@ -468,7 +533,50 @@ func checkShard(t failer, l *layout, w *world, m *shardModel) *shardFacts {
 		}
 	}
 
-	clauses := func(level string, short, long [][]int) (foreign, own int) {
+	// A flip is a cid. When several candidates submitted the same cid, "the flip's author" of the statement is read
+	// as: some holder of the cid (the lottery reaches a flip only through an author it gave to the candidate).
+	holdersOf := func(f int) []int { return m.holders[string(m.flips[f])] }
+	encryptsFor := func(f, c int) bool {
+		for _, a := range holdersOf(f) {
+			if facts.recipients[a][c] {
+				return true
+			}
+		}
+		return false
+	}
+	recipientsOfHolders := func(f int) [][]int {
+		var r [][]int
+		for _, a := range holdersOf(f) {
+			r = append(r, facts.recipientList[a])
+		}
+		return r
+	}
+	facts.sharedCids = m.sharedCid
+	if m.sharedCid > 0 {
+		for c := 0; c < n; c++ {
+			both := false
+			for _, a := range authorsOf[c] {
+				for _, f := range m.flipsOf[a] {
+					k := 0
+					for _, h := range holdersOf(f) {
+						if containsInt(authorsOf[c], h) {
+							k++
+						}
+					}
+					if k > 1 {
+						both = true
+					}
+				}
+			}
+			if both {
+				facts.sharedBoth++
+			}
+		}
+	}
+
+	// solverLevel: the lists are the cid lists handed to the solver translated back (always canonical indices);
+	// otherwise the lottery's own index lists, where the placeholder is the literal index 0.
+	clauses := func(level string, solverLevel bool, short, long [][]int) (foreign, own int) {
 		for c := 0; c < n; c++ {
 			for _, lst := range [][]int{short[c], long[c]} {
 				for _, f := range lst {
@@ -477,10 +585,11 @@ func checkShard(t failer, l *layout, w *world, m *shardModel) *shardFacts {
 					}
 				}
 			}
-			if hasDup(short[c]) {
+			// the same flip (cid) twice, under one index or under the indices of two copies
+			if hasDup(canonList(m, short[c])) {
 				fail("%s: candidate %d has a flip twice in its short list %v", level, c, short[c])
 			}
-			if hasDup(long[c]) {
+			if hasDup(canonList(m, long[c])) {
 				fail("%s: candidate %d has a flip twice in its long list %v", level, c, long[c])
 			}
 			if len(short[c]) > quota {
@@ -490,45 +599,44 @@ func checkShard(t failer, l *layout, w *world, m *shardModel) *shardFacts {
 				fail("%s: shard has %d flips but candidate %d has an empty long list", level, F, c)
 			}
 
-			sset, lset := toSet(short[c]), toSet(long[c])
+			sset, lset := toSet(canonList(m, short[c])), toSet(canonList(m, long[c]))
 			// placeholder, recognised structurally: the long list is exactly [0] and every flip of every
 			// author who encrypts for c is already in c's short list (nothing was left for the long session).
 			nothingLeft := true
 			for _, a := range authorsOf[c] {
 				for _, f := range m.flipsOf[a] {
-					if !sset[f] {
+					if !sset[m.canon[f]] {
 						nothingLeft = false
 					}
 				}
 			}
-			placeholder := len(long[c]) == 1 && long[c][0] == 0 && nothingLeft
+			placeholder := len(long[c]) == 1 && nothingLeft &&
+				(long[c][0] == 0 || (solverLevel && m.canon[long[c][0]] == m.canon[0]))
 
 			for _, f := range short[c] {
-				a := m.flipAuthor[f]
-				if !facts.recipients[a][c] {
-					fail("%s: candidate %d has flip %d of author %d in its short list %v, but the author encrypts only for %v", level, c, f, a, short[c], facts.recipientList[a])
+				if !encryptsFor(f, c) {
+					fail("%s: candidate %d has flip %d of author(s) %v in its short list %v, but they encrypt only for %v", level, c, f, holdersOf(f), short[c], recipientsOfHolders(f))
 				}
 			}
 			for _, f := range long[c] {
-				a := m.flipAuthor[f]
-				if facts.recipients[a][c] {
+				if encryptsFor(f, c) {
 					continue
 				}
 				if placeholder {
 					foreign++
 					continue
 				}
-				fail("%s: candidate %d has flip %d of author %d in its long list %v (short %v), but the author encrypts only for %v, and the list is not the placeholder",
-					level, c, f, a, long[c], short[c], facts.recipientList[a])
+				fail("%s: candidate %d has flip %d of author(s) %v in its long list %v (short %v), but they encrypt only for %v, and the list is not the placeholder",
+					level, c, f, holdersOf(f), long[c], short[c], recipientsOfHolders(f))
 			}
-			if placeholder && facts.recipients[m.flipAuthor[0]][c] && len(authorsOf[c]) >= quota {
+			if placeholder && encryptsFor(0, c) && len(authorsOf[c]) >= quota {
 				own++
 			}
 			// vice versa: every author who encrypts for c has a flip in c's lists
 			for _, a := range authorsOf[c] {
 				found := false
 				for _, f := range m.flipsOf[a] {
-					if sset[f] || lset[f] {
+					if sset[m.canon[f]] || lset[m.canon[f]] {
 						found = true
 						break
 					}
@@ -541,8 +649,8 @@ func checkShard(t failer, l *layout, w *world, m *shardModel) *shardFacts {
 		}
 		return
 	}
-	facts.placeholderForeign, facts.placeholderOwn = clauses("lottery index lists", short, long)
-	clauses("lists handed to the solver", solverShort, solverLong)
+	facts.placeholderForeign, facts.placeholderOwn = clauses("lottery index lists", false, short, long)
+	clauses("lists handed to the solver", true, solverShort, solverLong)
 
 	// the slot the node computes for a recipient is the recipient's slot
 	for a := 0; a < n; a++ {
@@ -561,11 +669,27 @@ func checkShard(t failer, l *layout, w *world, m *shardModel) *shardFacts {
 			}
 		}
 	}
-	// flip -> author lookup the node uses for key retrieval
+	// flip -> author lookup the node uses for key retrieval: the one who submitted the flip, or one of them
 	for f, cid := range m.flips {
 		addr, ok := w.lot.FlipAuthor(sid, cid)
-		if !ok || addr != m.cands[m.flipAuthor[f]].Addr {
-			fail("harness: node attributes flip %d to %v, model to candidate %d", f, addr, m.flipAuthor[f])
+		ai, known := m.addrIndex[addr]
+		if !ok || !known || !containsInt(holdersOf(f), ai) {
+			fail("harness: node attributes flip %d to %v, model to candidate(s) %v", f, addr, holdersOf(f))
+		}
+	}
+	// counted only (the statement does not say whose key opens a flip that two identities submitted): an assigned
+	// shared flip that GetFlipKeys would look up at a holder who does not encrypt for the candidate
+	if m.sharedCid > 0 {
+		for c := 0; c < n; c++ {
+			for _, f := range append(append([]int{}, solverShort[c]...), solverLong[c]...) {
+				if len(holdersOf(f)) < 2 {
+					continue
+				}
+				addr, _ := w.lot.FlipAuthor(sid, m.flips[f])
+				if !facts.recipients[m.addrIndex[addr]][c] {
+					facts.sharedOtherAuthor++
+				}
+			}
 		}
 	}
 	return facts
@@ -628,6 +752,15 @@ func countClasses(prefix string, f *shardFacts) {
 	if f.zeroFlipKnown {
 		c("placeholder.zero-flip-shard(known)")
 	}
+	if f.sharedCids > 0 {
+		c("shared.shard-with-a-cid-of-two-authors")
+		if f.sharedBoth > 0 {
+			c("shared.candidate-given-both-authors")
+		}
+		if f.sharedOtherAuthor > 0 {
+			c("shared.node-looks-key-up-at-non-encrypting-holder")
+		}
+	}
 	switch {
 	case f.n <= 6:
 		c("size.0-6")
@@ -674,6 +807,9 @@ func checkLayout(t failer, l *layout, prefix string) (*world, map[common.ShardId
 			evid.Count(prefix + "layout.with-non-candidates")
 			break
 		}
+	}
+	if l.Shared > 0 {
+		evid.Count(prefix + "layout.with-shared-cids")
 	}
 	if nonTrivial {
 		evid.NonTrivial(l.describe())
@@ -915,7 +1051,59 @@ func drawLayout(t *rapid.T, maxN int, withKeys bool) *layout {
 			l.Idents[at] = id
 		}
 	}
+
+	// the same flip submitted by more than one identity
+	if pick(t, "withSharedCids", 4) == 0 {
+		drawSharedCids(t, l)
+	}
 	return l
+}
+
+// drawSharedCids makes 1..3 identities "copycats": one of their flips gets the cid of a flip of another identity
+// (mostly of the same shard). Consensus accepts that: validateSubmitFlipTx refuses only a cid the SENDER has
+// already submitted (and a repeated word pair); only the node-local flipper refuses a cid it knows. An identity
+// never holds a cid twice.
+func drawSharedCids(t *rapid.T, l *layout) {
+	var holders []int
+	for i := range l.Idents {
+		if len(l.Idents[i].Flips) > 0 {
+			holders = append(holders, i)
+		}
+	}
+	if len(holders) < 2 {
+		return
+	}
+	k := rapid.IntRange(1, 3).Draw(t, "sharedCount")
+	for x := 0; x < k; x++ {
+		b := holders[rapid.IntRange(0, len(holders)-1).Draw(t, "copycat")]
+		anyShard := pick(t, "sharedAnyShard", 6) == 0
+		var sources []int
+		for _, i := range holders {
+			if i != b && (anyShard || l.Idents[i].Shard == l.Idents[b].Shard) {
+				sources = append(sources, i)
+			}
+		}
+		if len(sources) == 0 {
+			continue
+		}
+		a := sources[rapid.IntRange(0, len(sources)-1).Draw(t, "copiedFrom")]
+		src := l.Idents[a].Flips[rapid.IntRange(0, len(l.Idents[a].Flips)-1).Draw(t, "copiedFlip")]
+		has := false
+		for _, cid := range l.Idents[b].Flips {
+			if bytes.Equal(cid, src) {
+				has = true
+			}
+		}
+		if has {
+			continue
+		}
+		j := rapid.IntRange(0, len(l.Idents[b].Flips)-1).Draw(t, "copycatFlip")
+		flips := make([][]byte, len(l.Idents[b].Flips)) // the slice may be shared with the generator's bookkeeping
+		copy(flips, l.Idents[b].Flips)
+		flips[j] = cloneBytes(src)
+		l.Idents[b].Flips = flips
+		l.Shared++
+	}
 }
 
 // ---------------------------------------------------------------------------
@@ -1068,7 +1256,6 @@ func checkAuthorPackage(t *rapid.T, l *layout, w *world, m *shardModel, f *shard
 	}
 	flipPub := ecies.ImportECDSA(deriveKey("flip-public", author.Addr.Hex()))
 	flipPriv := ecies.ImportECDSA(deriveKey("flip-private", author.Addr.Hex()))
-	want := crypto.FromECDSA(flipPriv.ExportECDSA())
 	wantPub := crypto.FromECDSA(flipPub.ExportECDSA())
 
 	data := mempool.EncryptPrivateKeysPackage(flipPub, flipPriv, pubKeys)
@@ -1084,8 +1271,31 @@ func checkAuthorPackage(t *rapid.T, l *layout, w *world, m *shardModel, f *shard
 		w.pool.VerifC16PutPackage(author.Addr, &types.PrivateFlipKeysPackage{Data: data})
 		evid.Count("crypto.order.lookup-before-package")
 	}
-	evid.Count("crypto.packages")
-	evid.CountN("crypto.package-slots", len(pubKeys))
+	verifyDelivery(t, "crypto.", l, w, m, f, a, &publishedKeys{flipPub: flipPub, flipPriv: flipPriv, pubKeys: pubKeys, data: data}, outsider)
+}
+
+// publishedKeys is what an author has published for one ceremony.
+type publishedKeys struct {
+	flipPub, flipPriv *ecies.PrivateKey
+	pubKeys           [][]byte // the recipient list the package was encrypted for
+	data              []byte   // PrivateFlipKeysPackage.Data
+}
+
+// verifyDelivery is the delivery oracle for one author whose public flip key and keys package the pool of w holds:
+// every slot the pool serves is the slot of the published package; every recipient decrypts its slot, also through
+// the node's retrieval path GetFlipKeys for every assigned flip; nobody else opens anything.
+func verifyDelivery(t failer, prefix string, l *layout, w *world, m *shardModel, f *shardFacts, a int, p *publishedKeys, outsider *ecdsa.PrivateKey) {
+	t.Helper()
+	fail := func(format string, args ...interface{}) {
+		t.Helper()
+		t.Fatalf("shard %d author %d: "+format+"\n%s", append(append([]interface{}{m.id, a}, args...), l.summary())...)
+	}
+	author := m.cands[a]
+	flipPub, data, pubKeys := p.flipPub, p.data, p.pubKeys
+	want := crypto.FromECDSA(p.flipPriv.ExportECDSA())
+	wantPub := crypto.FromECDSA(flipPub.ExportECDSA())
+	evid.Count(prefix + "packages")
+	evid.CountN(prefix+"package-slots", len(pubKeys))
 
 	slots := make([][]byte, len(pubKeys))
 	for i := range pubKeys {
@@ -1095,19 +1305,27 @@ func checkAuthorPackage(t *rapid.T, l *layout, w *world, m *shardModel, f *shard
 		}
 		slots[i] = enc
 		if viaPool := w.pool.GetEncryptedPrivateFlipKey(i, author.Addr); !bytes.Equal(viaPool, enc) {
-			fail("slot %d: pool lookup and package extraction disagree", i)
+			fail("slot %d: pool lookup and package extraction disagree (the pool serves %d bytes, slot %d of the author's package has %d)", i, len(viaPool), i, len(enc))
 		}
 	}
 	if enc, err := mempool.VerifC16GetEncryptedKeyFromPackage(flipPub, data, len(pubKeys)); err == nil && len(enc) > 0 {
 		fail("extraction past the last slot (%d) returned data", len(pubKeys))
 	}
+	if enc := w.pool.GetEncryptedPrivateFlipKey(len(pubKeys), author.Addr); len(enc) > 0 {
+		fail("pool lookup past the last slot (%d) of the author's package returned data", len(pubKeys))
+	}
 
 	for c := 0; c < f.n; c++ {
 		cand := m.cands[c]
-		var assigned []int // a's flips in c's lists
+		// a's flips in c's lists. A flip that several identities submitted counts for the holder at whom the node looks
+		// its key up (for all other flips checkShard has verified that this is the one who submitted it).
+		var assigned []int
 		for _, lst := range [][]int{f.short[c], f.long[c]} {
 			for _, fl := range lst {
-				if m.flipAuthor[fl] == a && !containsInt(assigned, fl) {
+				if !containsInt(m.holders[string(m.flips[fl])], a) || containsInt(assigned, fl) {
+					continue
+				}
+				if addr, ok := w.lot.FlipAuthor(m.id, m.flips[fl]); ok && addr == author.Addr {
 					assigned = append(assigned, fl)
 				}
 			}
@@ -1124,14 +1342,14 @@ func checkAuthorPackage(t *rapid.T, l *layout, w *world, m *shardModel, f *shard
 						fail("recipient %d has no registered key yet decrypts slot %d", c, idx)
 					}
 				}
-				evid.Count("crypto.keyless-recipient-slot")
+				evid.Count(prefix + "keyless-recipient-slot")
 				continue
 			}
 			plain, err := decryptWith(cand.Key, slots[idx])
 			if err != nil || !bytes.Equal(plain, want) {
 				fail("recipient %d cannot decrypt its slot %d: err=%v", c, idx, err)
 			}
-			evid.Count("crypto.recipient-decrypts")
+			evid.Count(prefix + "recipient-decrypts")
 			// the node's own retrieval path, per assigned flip
 			for _, fl := range assigned {
 				pub, enc, err := w.vc.GetFlipKeys(cand.Addr, m.flips[fl])
@@ -1145,7 +1363,7 @@ func checkAuthorPackage(t *rapid.T, l *layout, w *world, m *shardModel, f *shard
 				if err != nil || !bytes.Equal(plain, want) {
 					fail("recipient %d cannot decrypt the key GetFlipKeys returns for assigned flip %d: err=%v", c, fl, err)
 				}
-				evid.Count("crypto.getflipkeys-decrypts")
+				evid.Count(prefix + "getflipkeys-decrypts")
 			}
 			continue
 		}
@@ -1155,7 +1373,7 @@ func checkAuthorPackage(t *rapid.T, l *layout, w *world, m *shardModel, f *shard
 				fail("candidate %d is not a recipient but decrypts slot %d", c, i)
 			}
 		}
-		evid.Count("crypto.non-recipient-candidate-rejected")
+		evid.Count(prefix + "non-recipient-candidate-rejected")
 		for _, fl := range m.flipsOf[a] {
 			_, enc, err := w.vc.GetFlipKeys(cand.Addr, m.flips[fl])
 			if err == nil {
@@ -1166,7 +1384,7 @@ func checkAuthorPackage(t *rapid.T, l *layout, w *world, m *shardModel, f *shard
 		}
 		if len(assigned) > 0 {
 			// only possible for the placeholder (checkShard has verified that)
-			evid.Count("crypto.placeholder-flip-without-key")
+			evid.Count(prefix + "placeholder-flip-without-key")
 		}
 	}
 	for i, enc := range slots {
@@ -1174,5 +1392,377 @@ func checkAuthorPackage(t *rapid.T, l *layout, w *world, m *shardModel, f *shard
 			fail("an outsider key decrypts slot %d", i)
 		}
 	}
-	evid.Count("crypto.outsider-rejected")
+	evid.Count(prefix + "outsider-rejected")
+}
+
+// ---------------------------------------------------------------------------
+// one key pool through several ceremonies
+// ---------------------------------------------------------------------------
+
+// lifetime is one node process: a state, one KeysPool and the ceremonies it lives through. Everything goes through
+// the entry points the node uses: identities and flips are in the (committed) state, the lottery reads them from
+// there, keys and packages arrive as signed gossip messages through AddPublicFlipKey / AddPrivateKeysPackage, the
+// epoch ends with the state changes of a new epoch and KeysPool.Clear() (ValidationCeremony.completeEpoch).
+type lifetime struct {
+	t        *rapid.T
+	salt     uint64
+	db       dbm.DB
+	bus      eventbus.Bus
+	appState *appstate.AppState
+	secStore *secstore.SecStore
+	pool     *mempool.KeysPool
+	height   uint64
+	shards   uint32
+	people   []ident // sorted by address: the order in which the state is iterated
+	required []bool  // RequiredFlips was raised for the identity in the current epoch
+	history  strings.Builder
+}
+
+func (lt *lifetime) fatalf(format string, args ...interface{}) {
+	lt.t.Helper()
+	lt.t.Fatalf(format+"\nhistory of the process:%s", append(args, lt.history.String())...)
+}
+
+func (lt *lifetime) logf(format string, args ...interface{}) {
+	fmt.Fprintf(&lt.history, "\n  "+format, args...)
+}
+
+// block commits the pending state changes as the next block and announces it (the pool follows the head).
+func (lt *lifetime) block() {
+	if err := lt.appState.Commit(nil); err != nil {
+		lt.fatalf("harness: commit: %v", err)
+	}
+	lt.height++
+	lt.bus.Publish(&events.NewBlockEvent{Block: &types.Block{Header: lt.head()}})
+}
+
+func (lt *lifetime) head() *types.Header {
+	return &types.Header{ProposedHeader: &types.ProposedHeader{Height: lt.height}}
+}
+
+// startPool is what the node does with its key pool at start-up.
+func (lt *lifetime) startPool() {
+	lt.pool = mempool.NewKeysPool(lt.db, lt.appState, lt.bus, lt.secStore)
+	lt.pool.Initialize(lt.head())
+}
+
+func newLifetime(t *rapid.T) *lifetime {
+	lt := &lifetime{t: t, salt: rapid.Uint64().Draw(t, "salt"), db: dbm.NewMemDB(), bus: eventbus.New(), shards: 1}
+	var err error
+	if lt.appState, err = appstate.NewAppState(lt.db, lt.bus); err != nil {
+		t.Fatalf("harness: NewAppState: %v", err)
+	}
+	if err = lt.appState.Initialize(0); err != nil {
+		t.Fatalf("harness: appState.Initialize: %v", err)
+	}
+	if pick(t, "twoShards", 6) == 0 {
+		lt.shards = 2
+		lt.appState.State.SetShardsNum(2)
+	}
+	n := rapid.IntRange(2, 12).Draw(t, "people")
+	for i := 0; i < n; i++ {
+		shard := 1
+		if lt.shards == 2 {
+			shard = rapid.IntRange(1, 2).Draw(t, "shard")
+		}
+		id := makeIdent(lt.salt, shard, i, true)
+		// mostly identities that can make flips; a few candidates proper
+		if rapid.IntRange(0, 5).Draw(t, "status") == 5 {
+			id.State = state.Candidate
+		} else {
+			id.State = rapid.SampledFrom(candidateStates).Draw(t, "state")
+		}
+		lt.people = append(lt.people, id)
+	}
+	sortIdents(lt.people)
+	lt.required = make([]bool, n)
+	for i := range lt.people {
+		id := &lt.people[i]
+		lt.appState.State.SetState(id.Addr, id.State)
+		lt.appState.State.SetPubKey(id.Addr, id.PubKey)
+		if lt.shards == 2 {
+			lt.appState.State.SetShardId(id.Addr, id.Shard)
+		}
+	}
+	lt.secStore = secstore.NewSecStore()
+	lt.secStore.AddKey(crypto.FromECDSA(deriveKey("node", lt.salt)))
+	lt.block()
+	lt.startPool()
+	lt.logf("%d identities, %d shard(s), pool started at height %d", n, lt.shards, lt.height)
+	return lt
+}
+
+func sortIdents(a []ident) {
+	for i := 1; i < len(a); i++ {
+		for j := i; j > 0 && bytes.Compare(a[j].Addr[:], a[j-1].Addr[:]) < 0; j-- {
+			a[j], a[j-1] = a[j-1], a[j]
+		}
+	}
+}
+
+// sent is what an author has sent out in one epoch.
+type sent struct {
+	key *types.PublicFlipKey
+	pkg *types.PrivateFlipKeysPackage
+}
+
+// TestKeyPoolAcrossEpochs: one process (one KeysPool, one state) lives through 2..4 validation ceremonies over a
+// fixed population. Every epoch draws who makes how many flips (fresh cids) and a fresh seed; the lottery is run on
+// the committed state (and, after a drawn restart inside the epoch, again from the persisted lottery identities:
+// both runs must agree); a drawn subset of the authors publishes public flip key and keys package as signed gossip
+// messages in a drawn arrival order, with drawn duplicate deliveries and replays of the author's messages of the
+// previous epoch; then all clauses are evaluated (checkShard, verifyDelivery). The epoch ends the way
+// applyNewEpoch / completeEpoch end it: flips cleared, epoch incremented, KeysPool.Clear() - or, drawn rarely, the
+// process is restarted instead.
+func TestKeyPoolAcrossEpochs(t *testing.T) {
+	rapid.Check(t, func(t *rapid.T) {
+		evid.Eval()
+		lt := newLifetime(t)
+		outsider := deriveKey("outsider", lt.salt)
+		epochs := rapid.IntRange(2, 4).Draw(t, "epochs")
+		lastSent := map[common.Address]*sent{} // previous epoch
+		lookedUp := map[common.Address]bool{}  // authors whose slots were looked up in the previous epoch of THIS pool
+		republished, desc := 0, fmt.Sprintf("epochs salt=%d shards=%d", lt.salt, lt.shards)
+		for e := 0; e < epochs; e++ {
+			epoch := lt.appState.State.Epoch()
+			// ---- flips of this epoch ----
+			l := &layout{ShardsNum: lt.shards, Seed: drawSeed(t)}
+			for i := range lt.people {
+				id := lt.people[i] // copy
+				id.Done, id.Flips = true, nil
+				nf := 0
+				if id.State != state.Candidate {
+					nf = rapid.SampledFrom([]int{1, 0, 2, 1, 3, 0, 1}).Draw(t, "flips")
+				}
+				for j := 0; j < nf; j++ {
+					cid := makeCid(lt.salt, int(id.Shard), i, int(epoch)*8+j)
+					id.Flips = append(id.Flips, cid)
+					lt.appState.State.AddFlip(id.Addr, cid, uint8(j))
+				}
+				// now and then somebody has not made the flips required from it: not a candidate of this ceremony
+				if rapid.IntRange(0, 9).Draw(t, "lazy") == 9 {
+					lt.appState.State.SetRequiredFlips(id.Addr, uint8(nf+1))
+					lt.required[i], id.Done = true, false
+				}
+				id.IsCand = id.Done
+				l.Idents = append(l.Idents, id)
+			}
+			lt.block()
+			lt.logf("epoch %d (height %d): %s", epoch, lt.height, l.summary())
+
+			// ---- lottery on the committed state ----
+			epochDb := database.NewEpochDb(lt.db, epoch)
+			epochDb.WriteLotterySeed(cloneBytes(l.Seed))
+			run := func(restore bool) *world {
+				lot := ceremony.VerifC16Run(lt.appState, epochDb, lt.pool, restore)
+				if lot == nil {
+					lt.fatalf("harness: lottery did not run (no seed)")
+				}
+				return &world{lot: lot, vc: lot.Ceremony(), pool: lt.pool}
+			}
+			w := run(false)
+			models := buildModels(l)
+			facts := map[common.ShardId]*shardFacts{}
+			check := func() {
+				for s := uint32(1); s <= lt.shards; s++ {
+					facts[common.ShardId(s)] = checkShard(lt, l, w, models[common.ShardId(s)])
+				}
+			}
+			check()
+			for s := uint32(1); s <= lt.shards; s++ {
+				countClasses("epochs.", facts[common.ShardId(s)])
+			}
+			desc += fmt.Sprintf(" | %s", l.describe())
+
+			// ---- publication ----
+			published := map[common.Address]*publishedKeys{}
+			nowSent := map[common.Address]*sent{}
+			var order []int // candidate positions in l.Idents of the publishing authors, in arrival order
+			for i := range l.Idents {
+				if l.Idents[i].IsCand && len(l.Idents[i].Flips) > 0 && rapid.IntRange(0, 4).Draw(t, "publishes") > 0 {
+					order = append(order, i)
+				}
+			}
+			if len(order) > 1 {
+				order = rapid.Permutation(order).Draw(t, "arrival")
+			}
+			if len(order) > 6 {
+				order = order[:6]
+			}
+			for _, i := range order {
+				author := &l.Idents[i]
+				pubKeys, err := w.vc.PrivateEncryptionKeyCandidates(author.Addr)
+				if err != nil {
+					evid.Count("epochs.author-without-recipients")
+					continue
+				}
+				p := &publishedKeys{
+					flipPub:  ecies.ImportECDSA(deriveKey("flip-public", author.Addr.Hex(), epoch)),
+					flipPriv: ecies.ImportECDSA(deriveKey("flip-private", author.Addr.Hex(), epoch)),
+					pubKeys:  pubKeys,
+				}
+				p.data = mempool.EncryptPrivateKeysPackage(p.flipPub, p.flipPriv, pubKeys)
+				key, err1 := types.SignFlipKey(&types.PublicFlipKey{Key: crypto.FromECDSA(p.flipPub.ExportECDSA()), Epoch: epoch}, author.Key)
+				pkg, err2 := types.SignFlipKeysPackage(&types.PrivateFlipKeysPackage{Data: p.data, Epoch: epoch}, author.Key)
+				if err1 != nil || err2 != nil {
+					lt.fatalf("harness: signing: %v %v", err1, err2)
+				}
+				fresh := func(m *sent) *sent { // a message as it comes off the wire (no cached sender, flags unset)
+					return &sent{
+						key: &types.PublicFlipKey{Key: m.key.Key, Epoch: m.key.Epoch, Signature: m.key.Signature},
+						pkg: &types.PrivateFlipKeysPackage{Data: m.pkg.Data, Epoch: m.pkg.Epoch, Signature: m.pkg.Signature},
+					}
+				}
+				mine := &sent{key: key, pkg: pkg}
+				nowSent[author.Addr] = mine
+				old := lastSent[author.Addr]
+				replay := func(when string) {
+					// a peer that is behind gossips what the author sent in the previous epoch
+					if old != nil && rapid.IntRange(0, 5).Draw(t, "replay-"+when) == 5 {
+						o := fresh(old)
+						_ = lt.pool.AddPublicFlipKey(o.key, false)
+						_ = lt.pool.AddPrivateKeysPackage(o.pkg, false)
+						evid.Count("epochs.replay-of-previous-epoch." + when)
+						lt.logf("  replay of %s's messages of the previous epoch (%s)", author.Addr.Hex(), when)
+					}
+				}
+				replay("before")
+				addKey := func() {
+					if err := lt.pool.AddPublicFlipKey(fresh(mine).key, false); err != nil {
+						lt.fatalf("epoch %d: the public flip key of author %s (has flips, signed, current epoch) is refused: %v", epoch, author.Addr.Hex(), err)
+					}
+				}
+				addPkg := func() {
+					if err := lt.pool.AddPrivateKeysPackage(fresh(mine).pkg, false); err != nil {
+						lt.fatalf("epoch %d: the keys package of author %s (has flips, signed, current epoch) is refused: %v", epoch, author.Addr.Hex(), err)
+					}
+				}
+				arrival := rapid.SampledFrom([]string{"package-first", "key-first", "lookup-between"}).Draw(t, "arrivalOrder")
+				switch arrival {
+				case "package-first":
+					addPkg()
+					addKey()
+				case "key-first":
+					addKey()
+					addPkg()
+				default:
+					addKey()
+					if early := lt.pool.GetEncryptedPrivateFlipKey(rapid.IntRange(0, len(pubKeys)).Draw(t, "earlySlot"), author.Addr); len(early) != 0 {
+						lt.fatalf("epoch %d: a key of author %s is handed out before its package of this epoch has arrived", epoch, author.Addr.Hex())
+					}
+					addPkg()
+					evid.Count("epochs.order.lookup-before-package")
+				}
+				lt.logf("  author %s publishes for %d recipients (%s)", author.Addr.Hex(), len(pubKeys), arrival)
+				if rapid.IntRange(0, 5).Draw(t, "duplicate") == 5 {
+					d := fresh(mine)
+					_ = lt.pool.AddPrivateKeysPackage(d.pkg, false)
+					_ = lt.pool.AddPublicFlipKey(d.key, false)
+					evid.Count("epochs.duplicate-delivery")
+				}
+				replay("after")
+				published[author.Addr] = p
+				if old != nil {
+					evid.Count("epochs.author-publishes-again")
+					if lookedUp[author.Addr] {
+						republished++
+						evid.Count("epochs.author-publishes-again-after-lookups-and-clear")
+					}
+				}
+			}
+
+			// ---- restart inside the epoch: the pool reloads what it persisted, the lottery is restored ----
+			if rapid.IntRange(0, 7).Draw(t, "restartInside") == 7 {
+				lt.startPool()
+				w2 := run(true)
+				checkSame(lt, l, w, w2, "lottery from the committed state vs. restored from the persisted lottery identities after a restart")
+				w = w2
+				check()
+				evid.Count("epochs.restart-inside-epoch")
+				lt.logf("  restart inside the epoch")
+			}
+
+			// ---- delivery ----
+			nextLooked := map[common.Address]bool{}
+			for s := uint32(1); s <= lt.shards; s++ {
+				m, f := models[common.ShardId(s)], facts[common.ShardId(s)]
+				for a := 0; a < f.n; a++ {
+					if p := published[m.cands[a].Addr]; p != nil {
+						verifyDelivery(lt, "epochs.", l, w, m, f, a, p, outsider)
+						nextLooked[m.cands[a].Addr] = true
+					}
+				}
+			}
+			evid.Count("epochs.ceremonies")
+			if len(published) == 0 {
+				evid.Count("epochs.ceremony-without-publication")
+			}
+
+			// ---- the epoch ends ----
+			for i := range lt.people {
+				if len(l.Idents[i].Flips) > 0 {
+					lt.appState.State.ClearFlips(lt.people[i].Addr)
+				}
+				if lt.required[i] {
+					lt.appState.State.SetRequiredFlips(lt.people[i].Addr, 0)
+					lt.required[i] = false
+				}
+			}
+			lt.appState.State.IncEpoch()
+			lt.block()
+			if rapid.IntRange(0, 5).Draw(t, "restartBetween") == 5 {
+				lt.startPool()
+				nextLooked = map[common.Address]bool{}
+				evid.Count("epochs.restart-between-epochs")
+				lt.logf("epoch %d is over: process restarted", epoch)
+			} else {
+				lt.pool.Clear()
+				evid.Count("epochs.pool-cleared")
+				lt.logf("epoch %d is over: pool cleared", epoch)
+			}
+			lastSent, lookedUp = nowSent, nextLooked
+		}
+		if republished > 0 {
+			evid.NonTrivial(desc)
+		}
+	})
+}
+
+// Fatalf / Helper make lifetime usable where the oracles take a failer: the history of the process is appended.
+func (lt *lifetime) Fatalf(format string, args ...interface{}) {
+	lt.t.Helper()
+	lt.fatalf(format, args...)
+}
+
+func (lt *lifetime) Helper() {}
+
+// TestSharedCidFixedLayouts: fixed layouts in which one author's flip carries the cid of another author's flip (the
+// shape the generated layouts of drawSharedCids reach): few and many authors, copycat before and after the original.
+func TestSharedCidFixedLayouts(t *testing.T) {
+	count := 0
+	for _, sz := range [][2]int{{2, 2}, {3, 2}, {5, 3}, {12, 7}, {12, 9}, {30, 12}, {30, 30}} {
+		n, k := sz[0], sz[1]
+		for _, flips := range []int{1, 2, 3} {
+			for _, pair := range [][2]int{{0, 1}, {1, 0}, {0, k - 1}, {k - 1, k / 2}} {
+				from, to := pair[0], pair[1]
+				if from == to {
+					continue
+				}
+				for si, seed := range exhaustiveSeeds {
+					spec := shardSpec{n: n, flipsPer: make([]int, n)}
+					for i := 0; i < k; i++ {
+						spec.flipsPer[i] = flips
+					}
+					l, per := buildLayout(uint64(100+si), []shardSpec{spec}, seed, false)
+					l.Idents = per[0]
+					l.Idents[to].Flips[flips-1] = cloneBytes(l.Idents[from].Flips[0])
+					l.Shared = 1
+					evid.Eval()
+					checkLayout(t, l, "fixed-shared.")
+					count++
+				}
+			}
+		}
+	}
+	evid.CountN("fixed-shared.layouts-x-seeds", count)
 }
